@@ -9,9 +9,13 @@ structures below say what a run of such calls guarantees — the documented cont
   is flushed and all input consumed; the decompressor can get all input data available so far"
   (`flush_complete`); Z_BUF_ERROR from such a call means there was nothing left to flush
   (`flush_buf_error`); Z_BUF_ERROR never comes with progress (`buf_error`);
-* Z_STREAM_END needs Z_FINISH (`no_stream_end`);
+* deflate on a valid stream answers Z_OK or Z_BUF_ERROR (Z_STREAM_END needs Z_FINISH, which
+  libstrophe never passes; Z_STREAM_ERROR needs a corrupted z_stream) (`no_error`), and
+  Z_BUF_ERROR only when no progress is possible, i.e. not with input and room available
+  (`progress`);
 * inflate(Z_SYNC_FLUSH) that returns with room left has delivered everything the input so far
-  determines (`complete`).
+  determines (`complete`); Z_BUF_ERROR comes without progress (`buf_error`) and, when there was
+  room but no input, means that nothing is held back (`buf_error_complete`).
 
 The state-dependent facts are stated through ghost observers of the opaque zlib state (`cons`,
 `prod`: everything consumed / produced so far) and an invariant (`ok`) of reachable states.
@@ -39,7 +43,10 @@ structure HDeflate (C : Codec) where
     cons (C.deflate d inp fl room).1 = cons d ++ inp.take (C.deflate d inp fl room).2.1
   step_prod : ∀ d inp fl room, ok d →
     prod (C.deflate d inp fl room).1 = prod d ++ (C.deflate d inp fl room).2.2.1
-  no_stream_end : ∀ d inp fl room, ok d → (C.deflate d inp fl room).2.2.2 ≠ Gen.Zl.zStreamEnd
+  no_error : ∀ d inp fl room, ok d →
+    (C.deflate d inp fl room).2.2.2 = Gen.Zl.zOk ∨ (C.deflate d inp fl room).2.2.2 = Gen.Zl.zBufError
+  progress : ∀ d inp fl room, ok d → inp ≠ [] → 0 < room →
+    (C.deflate d inp fl room).2.2.2 ≠ Gen.Zl.zBufError
   decode_prefix : ∀ d p, ok d → p <+: prod d → decode p <+: cons d
   flush_complete : ∀ d inp fl room, ok d → fl ≠ 0 →
     (C.deflate d inp fl room).2.2.2 = Gen.Zl.zOk →
@@ -72,5 +79,9 @@ structure HInflate (C : Codec) where
     (C.inflate i inp room).2.2.1.length < room →
     (C.inflate i inp room).2.1 = inp.length ∧
       prod (C.inflate i inp room).1 = plain (cons (C.inflate i inp room).1)
+  buf_error : ∀ i inp room, ok i → (C.inflate i inp room).2.2.2 = Gen.Zl.zBufError →
+    (C.inflate i inp room).2.1 = 0 ∧ (C.inflate i inp room).2.2.1 = []
+  buf_error_complete : ∀ i room, ok i → 0 < room →
+    (C.inflate i [] room).2.2.2 = Gen.Zl.zBufError → prod i = plain (cons i)
 
 end Strophe.Spec.Zlib
